@@ -29,7 +29,6 @@ Anything else (no candidate fits, two fit, a crash) is an ExtractionError: the p
 model and lets correspondence + oracle decide.
 """
 import ast
-import importlib
 import itertools
 import json
 import random
@@ -373,9 +372,6 @@ def extract():
     import fim.graph.abc_property_graph as m
     C = m.ABCPropertyGraph
     import fim.graph.resources.abc_arm as am
-    importlib.reload(am)
-    import fim.graph.resources.networkx_arm as nam
-    importlib.reload(nam)
     from fim.slivers.delegations import DelegationType
     try:
         drops_k, n2 = probe_two_hop()
